@@ -366,6 +366,27 @@ pub fn run_config(
             }
         }
     });
+    if cfg!(in_toto_verif_nosites) {
+        // degraded run: the iteration orders are not owned; fall back to repetition (every
+        // call builds fresh hash maps with fresh seeds) - sampling, labelled as such
+        let mut seen: BTreeSet<String> = BTreeSet::new();
+        let mut firstv: Option<Verdict> = None;
+        for _ in 0..96 {
+            let (v, _) = world::verify_with(&cfg.layout, cfg.owners.clone(), &cfg.dir, world::default_driver());
+            local.evaluations += 1;
+            if seen.insert(obs_of(&v)) && seen.len() == 2 {
+                local.violation(
+                    "order-dependent:unowned-iteration-order(sampled)",
+                    "repeating verification on the same inputs gives different outcomes (degraded run without call-site hooks; sampled)",
+                    || json!({"config": cfg.name, "outcome_a": firstv.as_ref().map(|f| f.to_json()), "outcome_b": v.to_json()}),
+                );
+            }
+            if firstv.is_none() {
+                firstv = Some(v);
+            }
+        }
+        outcomes.extend(seen);
+    }
     acc.merge(local);
     (outcomes, stats)
 }
@@ -491,7 +512,7 @@ pub fn run(tier: Tier) -> i32 {
     }
     // ---- hooks-off legs -------------------------------------------------
     let hooked_battery = crate::plain::battery_hooked();
-    let n_fresh = if tier.thorough() { 24 } else { 6 };
+    let n_fresh = if cfg!(in_toto_verif_nosites) { 32 } else if tier.thorough() { 24 } else { 6 };
     let fresh = crate::plain::battery_plain(n_fresh);
     let mut fresh_distinct = BTreeMap::new();
     for (name, outcome) in &hooked_battery {
